@@ -200,10 +200,10 @@ def check(run):
     jobs = [{"id": pi, "code": res[pi]["code"], "sformats": [], "nformats": [], "ops": [{"op": "names"}]} for pi in to_load]
     outs = common.run_modules(jobs)
     for pi, o in zip(to_load, outs):
-        want = sorted(res[pi].get("decoders") or [])
+        want = sorted(set(res[pi].get("decoders") or []))      # a mutated text may request the same name twice
         if not o.get("loaded"):
             fails.append(("emitted-module-does-not-load", {"stream": tags[pi], "files": dict(projects[pi]), "error": o.get("error", "")[:300]}))
-        elif sorted(__import__("json").loads(o["out"][0])) != want:
+        elif sorted(set(__import__("json").loads(o["out"][0]))) != want:
             fails.append(("parser-missing-for-a-requested-name", {"stream": tags[pi], "files": dict(projects[pi]), "built": o["out"][0], "requested": want}))
     # listed findings: replay the witnesses
     for kf in known:
